@@ -108,6 +108,16 @@ def run(chk: Check, tier: str):
         if neg.violated is None:
             raise MachineryError("negative control: TestRun.tla in mode 'shared' satisfies the isolation invariants")
         chk.count("negative_controls_rejected")
+        # --early-exit: the executor a failing test shuts down is its own
+        ree = run_tlc("TestRun", f"MC_TestRun_copy{n}ee.cfg", work=work, expect_violation=True)
+        if not ree.ok:
+            raise MachineryError(f"TestRun.tla (copy, EarlyExit) violates {ree.violated}")
+        chk.add_tlc(ree)
+        negee = run_tlc("TestRun", "MC_TestRun_shared2ee.cfg", work=work, expect_violation=True)
+        if negee.violated != "ExecutorPrivate":
+            raise MachineryError(f"negative control: a shared executor under --early-exit should violate ExecutorPrivate, got {negee.violated}")
+        chk.count("negative_controls_rejected")
+        ee_hists = {tuple(e["test"] for e in h): h for h in ree.records}
         hists = []
         seen = set()
         for h in r.records:
@@ -154,7 +164,7 @@ def run(chk: Check, tier: str):
             chk.sample({"order": order, "exitcodes": [x.exitcode for x in out.results]})
         # the same histories under --early-exit (a test stops at its first counterexample: what it stops - solver
         # processes, executors - is its own); verdicts only, the number of models legitimately differs
-        ee = [h for h in pick if len(h) >= 2 and any(e["result"] != "PASS" for e in h[:-1])]
+        ee = [ee_hists[tuple(e["test"] for e in h)] for h in pick if len(h) >= 2 and any(e["result"] != "PASS" for e in h[:-1])]
         for h in (ee if tier != "quick" else ee[:: max(1, len(ee) // 25)]):
             order = [e["test"] for e in h]
             sigs = [sig_of(t) for t in order]
